@@ -12,7 +12,6 @@ package utils
 
 //@ func (*Sessions).StartSession$1
 //@   property C03
-//@   noframe
 //@   effect $Deleted := true
 
 //@ func (*Sessions).StartSession
